@@ -318,3 +318,66 @@ func HarnessC09FrozenJobs() {
 	verifMonitorGlobals(false)
 	verifReach("visited")
 }
+
+// HarnessC09Calls: jobs that call a local reusable workflow share the
+// project's metadata cache. A job with an invalid call of the same file (a
+// ref after a local path, an empty ref, another file) placed before, between
+// or after two unrelated jobs (a valid call with an undeclared input; a job
+// reading an undeclared output of that call) must not change the diagnostics
+// of those two jobs.
+func HarnessC09Calls() {
+	bad := []string{"./.github/workflows/callee.yml@main", "./.github/workflows/callee.yml@", "./.github/workflows/other.yml@v1", "./.github/workflows/callee.yml"}[verifChoose("bad", 4)]
+	pos := verifChoose("position", 3)
+	mk := func(withBad bool) ([]*Error, int) {
+		proj := &Project{root: "/r"}
+		cache := NewLocalReusableWorkflowCache(proj, "/r", nil)
+		cache.cache["./.github/workflows/callee.yml"] = &ReusableWorkflowMetadata{
+			Inputs:  ReusableWorkflowMetadataInputs{"name": {Name: "name", Type: StringType{}}},
+			Secrets: ReusableWorkflowMetadataSecrets{},
+			Outputs: ReusableWorkflowMetadataOutputs{"out1": {Name: "out1"}},
+		}
+		jobs := []string{
+			"  good:\n    uses: ./.github/workflows/callee.yml\n    with:\n      name: foo\n      unknown_input: 42\n",
+			"  after:\n    needs: [good]\n    runs-on: ubuntu-latest\n    steps:\n      - run: echo ${{ needs.good.outputs.no_such_output }}\n",
+		}
+		badJob := "  bad:\n    uses: " + bad + "\n"
+		src := "on: push\njobs:\n"
+		shiftAt := 0
+		for k := 0; k <= 2; k++ {
+			if withBad && k == pos {
+				shiftAt = verifCountLines(src)
+				src += badJob
+			}
+			if k < 2 {
+				src += jobs[k]
+			}
+		}
+		la := NewLocalActionsCache(proj, nil)
+		errs := verifLintNode(verifParseYAML(src), []Rule{NewRuleWorkflowCall("/r/.github/workflows/w.yml", cache), NewRuleExpression(la, cache), NewRuleJobNeeds()})
+		return errs, shiftAt
+	}
+	e1, _ := mk(false)
+	e2, at := mk(true)
+	var got []*Error
+	for _, e := range e2 {
+		switch {
+		case e.Line <= at:
+			got = append(got, e)
+		case e.Line > at+2:
+			c := *e
+			c.Line -= 2
+			got = append(got, &c)
+		}
+	}
+	verifReach("compared")
+	verifCheckf(len(e1) == 2, "baseline-lost-its-diagnostics", verifErrTextConc(e1))
+	ok := len(got) == len(e1)
+	if ok {
+		for i := range got {
+			if got[i].Line != e1[i].Line || got[i].Column != e1[i].Column || got[i].Kind != e1[i].Kind || verifNormMsg(got[i].Message) != verifNormMsg(e1[i].Message) {
+				ok = false
+			}
+		}
+	}
+	verifCheckf(ok, "job-diagnostics-depend-on-other-job", verifErrTextConc(got)+" <> "+verifErrTextConc(e1))
+}
